@@ -296,6 +296,7 @@ WiringPortRef wire_node(Scope &sc, const JV &st, std::vector<WiringPortRef> ins)
         std::string e = "[\"ev\"," + ident(v) + "," + jtime(t) + "," + std::to_string(ord) + ",[";
         std::int64_t x = (cfg->mode == "max" || cfg->mode == "xor") ? 0 : cfg->bias;
         std::size_t n_valid = 0;
+        std::int64_t first_val = 0;
         bool any_mod = false;
         if (cfg->n_in > 0) {
             auto in = v.input(t);
@@ -309,6 +310,7 @@ WiringPortRef wire_node(Scope &sc, const JV &st, std::vector<WiringPortRef> ins)
                 if (valid) {
                     const std::int64_t k = i < cfg->coef.size() ? cfg->coef[i] : 1;
                     const std::int64_t v = k * contribution(c);
+                    if (i == 0) first_val = v;
                     if (cfg->mode == "max") { x = (n_valid == 0) ? v : std::max(x, v); }
                     else if (cfg->mode == "xor") { x = (n_valid == 0) ? v : (x ^ v); }
                     else x += v;
@@ -335,6 +337,7 @@ WiringPortRef wire_node(Scope &sc, const JV &st, std::vector<WiringPortRef> ins)
         bool thrown = false;
         if (cfg->thr.is_obj()) {
             if (in_list(cfg->thr.get("ord"), ord) || in_list(cfg->thr.get("time"), rel(t))) thrown = true;
+            if (cfg->thr.bool_or("neg", false) && first_val < 0) thrown = true;
         }
         if (cfg->mode == "acc") { s.sum += x; x = s.sum; }
         else if (cfg->mode == "count") { x = ord + 1; }
